@@ -86,6 +86,25 @@ Theorem C11_sig_values_sender :
 Proof. exact sender_sig_values. Qed.
 Print Assumptions C11_sig_values_sender.
 
+(** exact V range: [recoverPlain] (also the dual-event caller) accepts |V| in {27,28} only;
+    HomesteadSigner accepts exactly V in {27,28}; ChainIDSigner c exactly {27,28,35+2c,36+2c}.
+    In particular no V + k*256 or V + 2^64 alias of a genuine signature is accepted. *)
+Theorem C11_recover_plain_v_range :
+  forall oracle h r s vb a, recover_plain oracle h r s vb = SOk a -> (Z.abs vb = 27 \/ Z.abs vb = 28)%Z.
+Proof. exact recover_plain_v_range. Qed.
+Print Assumptions C11_recover_plain_v_range.
+
+Theorem C11_sender_v_homestead :
+  forall oracle H t a, sender oracle H Homestead t = SOk a -> t_v t = 27 \/ t_v t = 28.
+Proof. exact sender_homestead_v. Qed.
+Print Assumptions C11_sender_v_homestead.
+
+Theorem C11_sender_v_chainid :
+  forall oracle H c t a, sender oracle H (ChainIDSigner c) t = SOk a ->
+    t_v t = 27 \/ t_v t = 28 \/ t_v t = 35 + 2 * c \/ t_v t = 36 + 2 * c.
+Proof. exact sender_chainid_v. Qed.
+Print Assumptions C11_sender_v_chainid.
+
 (** a transaction whose V was produced for chain id c (non-zero) is rejected with
     ErrInvalidChainId by the signer of every other chain id *)
 Theorem C11_chainid_binding :
